@@ -457,6 +457,10 @@ pub fn lane_skip(seed: u64) -> Vec<Scenario> {
         LayeredDefaultsCodeNoSkip,
         /// the custom code is 0: a test case that simply succeeds skips the document
         CustomZero,
+        /// front-matter says 33, the test case sets its own code back to the built-in 80 and exits 80
+        InlineDefaultValueOverCustomDefaults,
+        /// same layers, but the test case exits 33 - which is not ITS skip code
+        InlineDefaultValueNoSkip,
         /// the custom code sits next to other keys of the same inline configuration
         CustomInlineWithOtherKeys,
     }
@@ -471,6 +475,8 @@ pub fn lane_skip(seed: u64) -> Vec<Scenario> {
             How::LayeredDefaultsCodeNoSkip,
             How::CustomZero,
             How::CustomInlineWithOtherKeys,
+            How::InlineDefaultValueOverCustomDefaults,
+            How::InlineDefaultValueNoSkip,
         ] {
             if cram && how != How::Default80 {
                 continue;
@@ -480,7 +486,7 @@ pub fn lane_skip(seed: u64) -> Vec<Scenario> {
                     for other in ["pass", "fail", "skip"] {
                         let mut sim = base_sim(g.rng.next_u64());
                         let code = match how {
-                            How::Default80 | How::EightyButCustom => 80,
+                            How::Default80 | How::EightyButCustom | How::InlineDefaultValueOverCustomDefaults => 80,
                             How::LayeredDefaultsCodeNoSkip => 99,
                             How::CustomZero => 0,
                             _ => 33,
@@ -510,6 +516,9 @@ pub fn lane_skip(seed: u64) -> Vec<Scenario> {
                                 if how == How::CustomZero {
                                     p.cfg.skip_code = Some(0);
                                 }
+                                if matches!(how, How::InlineDefaultValueOverCustomDefaults | How::InlineDefaultValueNoSkip) {
+                                    p.cfg.skip_code = Some(80);
+                                }
                                 if matches!(how, How::EightyButCustom | How::LayeredInlineWins | How::LayeredDefaultsCodeNoSkip) {
                                     p.cfg.skip_code = Some(33);
                                 }
@@ -533,6 +542,9 @@ pub fn lane_skip(seed: u64) -> Vec<Scenario> {
                         }
                         if matches!(how, How::LayeredInlineWins | How::LayeredDefaultsCodeNoSkip) {
                             a.defaults.skip_code = Some(99);
+                        }
+                        if matches!(how, How::InlineDefaultValueOverCustomDefaults | How::InlineDefaultValueNoSkip) {
+                            a.defaults.skip_code = Some(33);
                         }
                         let other_plan = match other {
                             "pass" => Plan::new(Fate::Pass),
@@ -598,6 +610,27 @@ fn outcome_plans() -> Vec<(&'static str, Vec<Plan>, Vec<Fault>)> {
         (
             "closed-streams-timeout",
             vec![Plan::new(Fate::Pass), Plan::new(Fate::CloseThenLinger { ns: Some(30 * SEC) }).cfg(to(SEC)), Plan::new(Fate::Pass)],
+            vec![],
+        ),
+        (
+            "user-environment-first",
+            {
+                let mut p = Plan::new(Fate::Pass);
+                for (k, v) in [("TMPDIR", "/nonexistent-users-own-tmp"), ("LANG", "de_DE.UTF-8"), ("VS_USER", "mine"), ("TESTFILE", "other.md")] {
+                    p.cfg.env.insert(k.into(), v.into());
+                }
+                vec![p, Plan::new(Fate::Pass), Plan::new(Fate::WrongOutput)]
+            },
+            vec![],
+        ),
+        (
+            "user-environment-later",
+            {
+                let mut p = Plan::new(Fate::Pass);
+                p.cfg.env.insert("TMPDIR".into(), "/nonexistent-users-own-tmp".into());
+                p.cfg.env.insert("VS_USER".into(), "mine".into());
+                vec![Plan::new(Fate::Pass), p, Plan::new(Fate::Pass)]
+            },
             vec![],
         ),
         ("closed-streams-linger-ok", vec![Plan::new(Fate::CloseThenLinger { ns: Some(200 * MS) }), Plan::new(Fate::Pass)], vec![]),
